@@ -1,0 +1,29 @@
+//go:build verif
+
+// Contracts for package builder, read by /verif/govc (contract-based deductive verification).
+// Comments and pure specification functions only; compiled only with -tags verif.
+package builder
+
+// ---------------------------------------------------------------------------------------------
+// C19: a failed generation never damages an existing output file.
+// Typestate: once os.Create has been called, only input-infallible I/O steps may follow. Every function of
+// this repository counts as fallible on the input (it may panic or return an error depending on the grammar
+// text) unless its own contract says "effect io_only".
+
+//@ func TemplateGenFromString
+//@ props C19
+//@ effects_only
+//@ effect after "os.Create" only fmt.Errorf, (*builder.TemplateBuilder).WriteFile
+
+//@ func (*TemplateBuilder).WriteFile
+//@ props C19
+//@ effects_only
+//@ effect io_only template.New, (*template.Template).Parse, (*template.Template).Execute, (*os.File).Close, panic
+//@ effect const_suffix goCodeTemplateStr "{{.CodeLast}}"
+//@ effect const_suffix goObjectTemplateStr "{{.CodeLast}}"
+
+//@ func TsGenFromString
+//@ props C19
+//@ effects_only
+//@ effect after "os.Create" only fmt.Errorf, (*os.File).WriteString, (*os.File).Close
+//@ effect last_call (*os.File).WriteString b.CodeLast
